@@ -1397,7 +1397,8 @@ def find_version(segments, error, eci, micro, is_sa=False):
     :rtype: int
     """
     assert not (eci and micro)
-    micro_allowed = micro or micro is None
+    # ECI is not available in Micro QR Codes
+    micro_allowed = (micro or micro is None) and not eci
     min_version = consts.VERSION_M1 if micro_allowed else 1
     max_version = consts.VERSION_M4 if micro else 40
     if min_version < 1:
